@@ -120,7 +120,7 @@ impl<'a> SpecGen<'a> {
                 let v = if self.rng.chance(1, 3) { json!(true) } else { self.schema(depth + 1) };
                 json!({"type": "object", "additionalProperties": v})
             }
-            12 => { self.feat("allof1"); match self.solid_ref() { Some(x) => json!({"allOf": [x]}), None => json!({"type": "string"}) } }
+            12 => { self.feat("allof1"); let t = if self.rng.chance(1, 3) { self.any_ref() } else { self.solid_ref() }; match t { Some(x) => json!({"allOf": [x]}), None => json!({"type": "string"}) } }
             13 => { self.feat("oneof"); json!({"oneOf": [{"type": "string"}, {"type": "integer"}]}) }
             14 => { self.feat("freeform"); json!({"type": "object"}) }
             _ => { self.feat("notype"); json!({}) }
